@@ -220,6 +220,15 @@ func (o *oracle) poll() {
 				o.validators[1] = validatorsOf(g.NextValidators())
 			}
 		}
+		if s.rc.Property == "C08" && !n.inc.genesisRT {
+			n.inc.genesisRT = true
+			if g, err := n.inc.bm.GetBlockByHeight(0); err == nil {
+				o.checkRoundTrip(n, 0, g) // the genesis block has no proposer and no votes
+				if s.rc.Failed() {
+					return
+				}
+			}
+		}
 		for h := n.lastSeenH + 1; h <= last.Height(); h++ {
 			blk, err := n.inc.bm.GetBlockByHeight(h)
 			if err != nil {
@@ -253,6 +262,9 @@ func (o *oracle) poll() {
 			}
 			if !s.rc.Failed() {
 				o.checkLocalCertificate(n, h, id)
+			}
+			if !s.rc.Failed() && s.rc.Property == "C08" {
+				o.checkRoundTrip(n, h, blk)
 			}
 			if s.rc.Failed() {
 				return
